@@ -126,8 +126,21 @@ def main():
                     break
             if fails:
                 break
-            # ---- range reads (C12)
+            # ---- a read that names a missing column on files older than one cadence must not modify the tree (C20)
             r = dm.DigitalMetadataReader(mdir)
+            if rnd.random() < 0.5:
+                for dp, dn, fn in os.walk(mdir):
+                    for f in fn:
+                        os.utime(os.path.join(dp, f), (1.0e9, 1.0e9))
+                h0 = tree_hash(root)
+                cases += 1
+                try:
+                    r.read(min(model), max(model), columns="no_such_column")
+                except Exception:
+                    pass
+                if tree_hash(root) != h0:
+                    fails.append({"what": "a read naming a missing column deleted/changed files of a valid tree", "case": dict(tag, writes=writes)}); break
+            # ---- range reads (C12)
             keys = sorted(model)
             pts = sorted(set(keys + [k - 1 for k in keys] + [k + 1 for k in keys]))
             for _q in range(spec.get("queries", 20)):
